@@ -291,6 +291,14 @@ STRUCTURAL = [
     ("group:residue-range-huge", "colvar {\n  name s\n  alpha {\n    residueRange 1-2147483647\n    psfSegID MAIN\n  }\n}\n", "reject"),
     ("group:residue-range-huge-dihedpc", "colvar {\n  name s\n  dihedralPC {\n    residueRange 1-2147483647\n    psfSegID MAIN\n    vector 1 1 1 1\n  }\n}\n", "reject"),
     ("group:residue-range-reversed", "colvar {\n  name s\n  alpha {\n    residueRange 9-1\n    psfSegID MAIN\n  }\n}\n", "reject"),
+    ("walkers:abf-integrate-off-shared", _ABFK("integrate off\n  shared on\n  outputFreq 2"), None),
+    ("alloc:runAveLength-2^62", cv("x", 1, "  runAve on\n  runAveLength 4611686018427387904\n  runAveStride 1\n"), "accept"),
+    ("alloc:abf-historyFreq-2^62", _ABFK("outputFreq 2\n  historyFreq 4611686018427387904"), "accept"),
+    ("alloc:meta-hillWidth-tiny", _METAK("hillWidth 1e-300").replace("  hillWidth 2\n", ""), "accept"),
+    ("alloc:meta-grid-tiny-width", cv("x", 1, "  width 1e-9\n  lowerBoundary 0\n  upperBoundary 4\n") + "metadynamics {\n  name m\n  colvars x\n  hillWeight 0.1\n  hillWidth 2\n  newHillFrequency 2\n}\n", "reject"),
+    ("alloc:abf-grid-1e9-bins", cv("x", 1, "  width 1\n  lowerBoundary 0\n  upperBoundary 1000000000\n", "    oneSiteTotalForce on\n") + "abf {\n  name a\n  colvars x\n  fullSamples 2\n}\n", "reject"),
+    ("alloc:histogram-gather-tiny-width", "colvar {\n  name d\n  distancePairs {\n    group1 { atomNumbers 1 2 }\n    group2 { atomNumbers 3 4 }\n  }\n}\nhistogram {\n  name h\n  colvars d\n  gatherVectorColvars on\n  histogramGrid {\n    width 1e-9\n    lowerBoundary 0\n    upperBoundary 8\n  }\n}\n", "reject"),
+    ("alloc:histogram-gather-weights-length", "colvar {\n  name d\n  distancePairs {\n    group1 { atomNumbers 1 2 }\n    group2 { atomNumbers 3 4 }\n  }\n}\nhistogram {\n  name h\n  colvars d\n  gatherVectorColvars on\n  weights 1 1\n  histogramGrid {\n    width 1\n    lowerBoundary 0\n    upperBoundary 8\n  }\n}\n", "reject"),
     ("group:hbond-valid", "colvar {\n  name s\n  hBond {\n    acceptor 1\n    donor 2\n  }\n}\n", "accept"),
 ]
 
@@ -362,3 +370,75 @@ VALIDATE = [
     ("kmoving", {"rof": "3"}, _render_kmoving, {"forceConstant": "2.0", "targetNumSteps": "4", "targetNumStages": "2"}, {}, {"decoupling": "on"}, None),
 ]
 VALIDATE_VALUES = ["0", "-1", "1", "2", "3", "0.5", "-0.5", "2147483647", "1e300", "1e-300", "nan", "inf", "-", "4294967296"]
+
+
+# ------------------------------------------------------------------------------------------------
+# Round 5: explicit validation cases (model line, configuration, auxiliary files)
+# ------------------------------------------------------------------------------------------------
+def _opessn(sig, nl, nlp, adaptive=False):
+    conf = cv("x", 1, GRIDCV) + "opes_metad {\n  name o\n  colvars x\n  newHillFrequency 2\n  barrier 10\n"
+    line = "validate kind=opessn n=1"
+    if sig is not None:
+        conf += "  gaussianSigma %s\n" % sig
+        line += " l:gaussianSigma=%s" % ",".join(sig.split())
+    if adaptive:
+        conf += "  adaptiveSigma on\n  adaptiveSigmaStride 4\n"
+        line += " f:adaptiveSigma=on"
+    if nl:
+        conf += "  neighborList on\n"
+        line += " f:neighborList=on"
+    if nlp is not None:
+        conf += "  neighborListParameters %s\n" % nlp
+        line += " l:neighborListParameters=%s" % ",".join(nlp.split())
+    return (line, conf + "}\n", {})
+
+def _rmsd(inline, filepos):
+    conf = "colvar {\n  name s\n  rmsd {\n    atoms { atomNumbers 1 2 3 }\n"
+    line = "validate kind=rmsd g=3"
+    files = {}
+    if inline is not None:
+        conf += "    refPositions %s\n" % " ".join("(%d,0,%d)" % (i, i % 2) for i in range(inline))
+        line += " inline=%d" % inline
+    if filepos == "missing":
+        conf += "    refPositionsFile nosuch.xyz\n"
+        line += " file=missing"
+    elif filepos is not None:
+        conf += "    refPositionsFile r.xyz\n"
+        line += " file=%d" % filepos
+        files["r.xyz"] = "%d\nc\n" % filepos + "".join("C %d 0 %d\n" % (i, i % 2) for i in range(filepos))
+    return (line, conf + "  }\n}\n", files)
+
+def _ebmeta(vals, minval=None, expand=False):
+    conf = (cv("x", 1, "  width 1\n  lowerBoundary 0\n  upperBoundary 4\n" + ("  expandBoundaries on\n" if expand else "")) +
+            "metadynamics {\n  name m\n  colvars x\n  hillWeight 0.1\n  hillWidth 2\n  newHillFrequency 2\n  ebMeta on\n")
+    line = "validate kind=ebmeta expand=%d" % (1 if expand else 0)
+    files = {}
+    if vals is None:
+        conf += "  targetDistFile nosuch.dat\n"
+        line += " vals=-"
+    else:
+        conf += "  targetDistFile t.dat\n"
+        files["t.dat"] = "# 1\n#  0 1 4 0\n\n" + "".join("  %g  %s\n" % (i + 0.5, v) for i, v in enumerate(vals))
+        line += " vals=%s" % ",".join(vals)
+    if minval is not None:
+        conf += "  targetDistMinVal %s\n" % minval
+        line += " s:targetDistMinVal=%s" % minval
+    return (line, conf + "}\n", files)
+
+VALIDATE2 = (
+    [_opessn(s_, False, None) for s_ in ("0.5", "0", "-1", "0.001", "1000", "x", "1 2", None)] +
+    [_opessn(None, False, None, adaptive=True), _opessn("0", False, None, adaptive=True)] +
+    [_opessn("0.5", True, p) for p in (None, "3 0.5", "1 0.5", "1 0.1", "1.0001 0.1", "0.5 0.5", "3 0", "3 -1", "3 0.6", "3 1.2", "3", "3 0.5 1", "9 0.8", "9 0.9", "1.5 0.3", "1.5 0.35", "x 0.5")] +
+    [_opessn("0.5", False, "3 0.5")] +
+    [_rmsd(i, f) for i, f in ((3, None), (2, None), (4, None), (0, None), (None, 3), (None, 2), (None, "missing"), (None, None), (3, 3))] +
+    [_ebmeta(v, m, x) for v, m, x in ((["1", "2", "3", "4"], None, False), (["0", "0", "0", "0"], None, False), (None, None, False),
+                                      (["1", "-2", "3", "4"], None, False), (["0", "2", "3", "4"], None, False), (["0", "2", "3", "4"], "0", False),
+                                      (["0", "0", "0", "0"], "0", False), (["1", "2", "3", "4"], "2", False), (["1", "2", "3", "4"], "1", False),
+                                      (["1", "2", "3", "4"], "-1", False), (["1", "2", "3", "4"], "0.5", False), (["1", "2", "3", "4"], "nan", False),
+                                      (["1", "2", "3", "4"], None, True))]
+)
+
+# histogram custom grid on two variables: list lengths of width / boundaries
+VECTORS += [
+    ("histgrid.width", _XY + "histogram {\n  name h\n  colvars x y\n  histogramGrid {\n    width {V}\n    lowerBoundary 0 0\n    upperBoundary 4 4\n  }\n}\n", True, "any"),
+]
